@@ -226,3 +226,30 @@ Proof.
   exists [1; 2], [2; 3], [2; 3], 1. split; [reflexivity|]. split; [left; reflexivity|].
   intros [H|[H|[]]]; discriminate.
 Qed.
+
+(* one category at a time: a fix computed without trim writes a LIST display; the next run trims it element-wise (Model/SnapOps.v / the list branch of _get_changes):
+   what survives are the members that were tested.  Compared with approving fix and trim together (the tested values, in the order of the first test): *)
+Definition fix_then_trim (is_set : bool) (old tested : list Z) : list Z :=
+  filter (fun v => mem v tested) (ordered is_set old ++ missing old tested).
+
+(* ... the same members ... *)
+Lemma fix_then_trim_same_members is_set old tested v : In v (fix_then_trim is_set old tested) <-> In v tested.
+Proof.
+  unfold fix_then_trim. rewrite filter_In. split.
+  - intros [_ H]. apply mem_In. exact H.
+  - intros H. split; [|apply mem_In; exact H].
+    apply in_or_app. destruct (mem v old) eqn:M.
+    + left. apply ordered_In. apply mem_In. exact M.
+    + right. apply missing_In. tauto.
+Qed.
+
+(* ... but not always the same order: the syntax trees of the two routes differ for this input *)
+Lemma fix_then_trim_order_differs :
+  exists (old tested nv : list Z),
+    coll_replace false true false old tested = Repl true nv /\ fix_then_trim false old tested <> nv.
+Proof. exists [1; 2], [3; 2], [3; 2]. split; [reflexivity|]. unfold fix_then_trim. cbn. discriminate. Qed.
+
+(* when the tested values that are members come first, in the order of the display, the two routes agree literally *)
+Lemma fix_then_trim_agrees_example :
+  fix_then_trim false [1; 2] [2; 3] = [2; 3] /\ coll_replace false true false [1; 2] [2; 3] = Repl true [2; 3].
+Proof. split; reflexivity. Qed.
